@@ -61,13 +61,18 @@ def gen_batch(rng, N):
         m = rng.random()
         loose = (['STRICT'] * len(nodes) if m < 0.45 else ['LOOSE'] * len(nodes) if m < 0.8
                  else [rng.choice(['STRICT', 'LOOSE']) for _ in nodes])
-        rq = {'id': str(k), 'src': f'trx {a}', 'dst': f'trx {b}', 'nodes': nodes, 'loose': loose, 'style': style,
-              'mode': rng.choice(['mode 1', 'mode 1', 'mode 1', None]), 'bidir': rng.random() < 0.3}
+        rq = c11.choose_build(rng, {'id': str(k), 'src': f'trx {a}', 'dst': f'trx {b}', 'nodes': nodes, 'loose': loose,
+                                    'style': style, 'mode': rng.choice(['mode 1', 'mode 1', 'mode 1', None]),
+                                    'bidir': rng.random() < 0.3})
         if k > 0 and rng.random() < 0.3:
             o = rng.choice(reqs)                               # a twin: candidate for aggregation
             rq.update(src=o['src'], dst=o['dst'])
             if rng.random() < 0.75:
                 rq.update(nodes=list(o['nodes']), loose=list(o['loose']), style=o['style'])
+                rq.pop('json_perm', None)
+                rq['build'] = o.get('build', 'api')
+                if 'json_perm' in o:
+                    rq['json_perm'] = list(o['json_perm'])
                 if rng.random() < 0.8:
                     rq['mode'] = o['mode']
                 if rng.random() < 0.8:
@@ -122,7 +127,8 @@ def gen_shapes_batch(rng, N):
     for k, kind in enumerate(slots):
         s_, t_ = (a, b) if kind == 't' else oe.pop()
         reqs.append({'id': str(k), 'src': f'trx {s_}', 'dst': f'trx {t_}', 'nodes': [], 'loose': [], 'style': 'none',
-                     'mode': 'mode 1' if kind == 't' or (s_, t_) != (a, b) else None, 'bidir': False})
+                     'mode': 'mode 1' if kind == 't' or (s_, t_) != (a, b) else None, 'bidir': False,
+                     'build': 'api_defaults'})
         (twins if kind == 't' else others).append(str(k))
 
     def some_others():
@@ -200,9 +206,67 @@ def gen_vector_batch(rng, N):
         m = rng.random()
         loose = (['STRICT'] * len(nodes) if m < 0.4 else ['LOOSE'] * len(nodes) if m < 0.8
                  else [rng.choice(['STRICT', 'LOOSE']) for _ in nodes])
-        reqs.append({'id': str(k), 'src': f'trx {a}', 'dst': f'trx {b}', 'nodes': nodes, 'loose': loose, 'style': style,
-                     'mode': rng.choice(['mode 1', None]), 'bidir': rng.random() < 0.3})
+        if k == 1 and reqs[0]['nodes'] and rng.random() < 0.25:
+            # a STRICT hop on a link the partner is forced through: incompatible with the disjunction
+            forced = [u for u, h in zip(reqs[0]['nodes'], reqs[0]['loose']) if h == 'STRICT' and not u.startswith('roadm')]
+            if forced:
+                nodes, loose, style = [rng.choice(forced)], ['STRICT'], 'vec_conflict'
+        if rng.random() < 0.35:
+            nodes.append(f'trx {b}')                          # the request's own destination listed last ...
+            loose.append(rng.choice(['STRICT', 'LOOSE']))
+            style += '+dst'
+        if rng.random() < 0.2:
+            nodes.insert(0, f'trx {a}')                        # ... its own source listed first
+            loose.insert(0, rng.choice(['STRICT', 'LOOSE']))
+            style += '+src'
+        reqs.append(c11.choose_build(rng, {'id': str(k), 'src': f'trx {a}', 'dst': f'trx {b}', 'nodes': nodes, 'loose': loose,
+                                           'style': style, 'mode': rng.choice(['mode 1', None]),
+                                           'bidir': rng.random() < 0.3}))
     return reqs, [{'id': 'd0', 'reqs': rng.sample(['0', '1'], 2)}]
+
+
+def gen_perm_batch(rng, N):
+    """planning-level stream: 2-3 requests that are identical except for the ORDER of their include lists (STRICT ROADM
+    hops, each order may be met by a different route), alone or next to a group; every original request must get a
+    route crossing ITS list in ITS order -- only requests with equal lists may share one"""
+    sites = N.sites
+    a, b = rng.sample(sites, 2)
+    inner = [x for x in sites if x not in (a, b)]
+    k = rng.choice([2, 2, 3]) if len(inner) >= 3 else 2
+    hops = [f'roadm {x}' for x in rng.sample(inner, min(k, len(inner)))]
+    if rng.random() < 0.3:
+        hop_types = [rng.choice(['STRICT', 'LOOSE']) for _ in hops]
+        if 'STRICT' not in hop_types:
+            hop_types[0] = 'STRICT'
+    else:
+        hop_types = ['STRICT'] * len(hops)
+    build = rng.choice(['api', 'api', 'json'])
+    reqs = []
+    for i in range(rng.choice([2, 2, 3])):
+        order = list(range(len(hops)))
+        if i > 0 and rng.random() < 0.8:
+            while order == list(range(len(hops))) and len(hops) > 1:
+                rng.shuffle(order)
+        rq = {'id': str(i), 'src': f'trx {a}', 'dst': f'trx {b}', 'nodes': [hops[j] for j in order],
+              'loose': [hop_types[j] for j in order], 'style': 'perm_twin', 'mode': 'mode 1', 'bidir': False, 'build': build}
+        if build == 'json':
+            perm = list(range(len(hops)))
+            rng.shuffle(perm)
+            rq['json_perm'] = perm
+        reqs.append(rq)
+    groups = []
+    if rng.random() < 0.35:
+        c, d = rng.sample(sites, 2)
+        reqs.append({'id': str(len(reqs)), 'src': f'trx {c}', 'dst': f'trx {d}', 'nodes': [], 'loose': [], 'style': 'none',
+                     'mode': None, 'bidir': False})
+        groups = [{'id': 'd0', 'reqs': [reqs[-1]['id'], reqs[0]['id']]}]
+    return reqs, groups
+
+
+def gen_perm_case(rng):
+    n = rng.choice([4, 5, 5, 6])
+    topo = gen_topo(rng, n, rng.randint(n, n + 3))
+    return {'topo': topo, 'requests': None, 'groups': None, 'kind': 'perm'}
 
 
 def gen_vector_case(rng):
@@ -277,7 +341,7 @@ def gen_cutoff_case(rng, target):
     topo = {'n': 2 + m, 'lines': lines}
     rev = rng.random() < 0.25
     reqs = [{'id': '0', 'src': 'trx A', 'dst': 'trx B', 'nodes': [], 'loose': [], 'style': 'cutoff', 'mode': 'mode 1',
-             'bidir': False},
+             'bidir': False, 'build': 'api_defaults'},
             {'id': '1', 'src': 'trx B' if rev else 'trx A', 'dst': 'trx A' if rev else 'trx B', 'nodes': [], 'loose': [],
              'style': 'cutoff', 'mode': None, 'bidir': False}]
     return {'topo': topo, 'requests': reqs, 'groups': [{'id': 'd0', 'reqs': ['0', '1']}], 'kind': 'cutoff',
@@ -552,7 +616,7 @@ def process(ctx, rng, cases, prop, tag, isd_cases=None, short_terms=None, short_
                 continue
             kind = c.get('kind', 'random')
             if c.get('requests') is None:
-                reqs, groups = {'vector': gen_vector_batch, 'shapes': gen_shapes_batch}.get(kind, gen_batch)(rng, N)
+                reqs, groups = {'vector': gen_vector_batch, 'shapes': gen_shapes_batch, 'perm': gen_perm_batch}.get(kind, gen_batch)(rng, N)
             else:
                 reqs, groups = c['requests'], c['groups']
             case = {'topo': c['topo'], 'requests': reqs, 'groups': groups}
@@ -638,6 +702,7 @@ def run(ctx):
         cases += [gen_case(rng) for _ in range(ctx.scale(130, 2400))]
         cases += [gen_vector_case(rng) for _ in range(ctx.scale(25, 400))]
         cases += [gen_shapes_case(rng) for _ in range(ctx.scale(32, 500))]
+        cases += [gen_perm_case(rng) for _ in range(ctx.scale(20, 300))]
         cases += [gen_cutoff_case(rng, [80, 81, 79, 82, 80, 81, 78, 83, 80, 81, 77, 84][k % 12]) for k in range(ctx.scale(12, 72))]
     isd_cases, short_terms, short_meta = [], [], []
     process(ctx, rng, cases, 'C12', 'cases', isd_cases, short_terms, short_meta)
